@@ -133,6 +133,8 @@ impl Model {
     // ------------------------------------------------------------------ actions
 
     fn disallow(&mut self, oid: usize) {
+        let hid = self.obs[oid].hid;
+        self.lifecycle_ops.entry(hid).or_default().insert(oid);
         match self.obs[oid].state {
             OState::Created => {
                 self.obs[oid].state = OState::Unlinked;
@@ -211,6 +213,8 @@ impl Model {
             Act::Disallow { oid } => self.disallow(*oid),
             Act::Subscribe { oid, sid, err } => {
                 self.cov.lifecycle_errors_checked += 1;
+                let hid = self.obs[*oid].hid;
+                self.lifecycle_ops.entry(hid).or_default().insert(*oid);
                 let dead = matches!(self.obs[*oid].state, OState::Disallowed | OState::Unlinked);
                 match (dead, sid, err) {
                     (true, None, Some(ObsErr::Disallowed)) => {}
@@ -233,6 +237,8 @@ impl Model {
             }
             Act::Unsub { via_oid, sid, res } => {
                 self.cov.lifecycle_errors_checked += 1;
+                let hid = self.obs[*via_oid].hid;
+                self.lifecycle_ops.entry(hid).or_default().insert(*via_oid);
                 let owner = self.subs[*sid].oid;
                 let expect: Result<(), ObsErr> = if owner != *via_oid { Err(ObsErr::Mismatch) } else { Ok(()) };
                 if *res != expect {
